@@ -15,7 +15,7 @@ More == l <= Len(Traces[tid])
 IsEvent(e) == More /\ Ev.e = e /\ l' = l + 1 /\ UNCHANGED tid
 
 TInit == Init /\ tid \in (IF TIDS = 0 THEN 1..Len(Traces) ELSE {TIDS}) /\ l = 1
-TBegin == IsEvent("begin") /\ Begin([n |-> Ev.n, bs |-> Ev.bs, maxiter |-> Ev.maxiter, hasaff |-> Ev.hasaff, affid |-> Ev.affid,
+TBegin == IsEvent("begin") /\ Begin([n |-> Ev.n, d |-> Ev.d, groups |-> Ev.groups, bs |-> Ev.bs, maxiter |-> Ev.maxiter, hasaff |-> Ev.hasaff, affid |-> Ev.affid,
                                      decorated |-> Ev.decorated, whole |-> Ev.whole, sparse |-> Ev.sparse, mode |-> Ev.mode])
 TEpoch == IsEvent("epoch") /\ StartEpoch
 BlockOK == /\ Ev.hasblock = cf.hasaff
@@ -24,7 +24,8 @@ BlockOK == /\ Ev.hasblock = cf.hasaff
 RecordedOK == cf.decorated => Ev.rec = Ev.idx
 TBatch == IsEvent("batch") /\ Batch(Ev.idx) /\ BlockOK /\ RecordedOK
 TUpdate == IsEvent("update") /\ Update /\ Ev.rows = Len(cur) /\ Ev.shapesok /\ Ev.finite /\ Ev.dirok
-TProx == IsEvent("prox") /\ Prox /\ Ev.thrialpha /\ Ev.lrsched /\ Ev.applied /\ Ev.selok /\ Ev.w1zero /\ Ev.groupsok /\ Ev.finite
+SetOfSeq(q) == {q[j] : j \in 1..Len(q)}
+TProx == IsEvent("prox") /\ Prox(SetOfSeq(Ev.sel)) /\ Ev.thrialpha /\ Ev.lrsched /\ Ev.applied /\ Ev.selok /\ Ev.w1zero /\ Ev.groupsok /\ Ev.finite
 TFinish == IsEvent("finish") /\ Finish /\ (cf.mode = "fit" => Ev.niter = cf.maxiter) /\ Ev.finite /\ Ev.coherent
 
 TNext == TBegin \/ TEpoch \/ TBatch \/ TUpdate \/ TProx \/ TFinish
@@ -41,7 +42,7 @@ Diag == [at |-> tid, l |-> l, ph |-> ph,
                     [phase |-> ph = "update", rows |-> Ev.rows = Len(cur), shapesok |-> Ev.shapesok, finite |-> Ev.finite,
                      dirok |-> Ev.dirok]
                ELSE IF Ev.e = "prox" THEN
-                    [phase |-> ph = "prox", thrialpha |-> Ev.thrialpha, lrsched |-> Ev.lrsched, applied |-> Ev.applied,
+                    [phase |-> ph = "prox", groupswhole |-> GroupsWhole({Ev.sel[j] : j \in 1..Len(Ev.sel)}), thrialpha |-> Ev.thrialpha, lrsched |-> Ev.lrsched, applied |-> Ev.applied,
                      selok |-> Ev.selok, w1zero |-> Ev.w1zero, groupsok |-> Ev.groupsok, finite |-> Ev.finite]
                ELSE IF Ev.e = "epoch" THEN
                     [phase |-> EpochOver, epochsleft |-> (cf.mode = "fit" => epoch < cf.maxiter)]
